@@ -379,6 +379,13 @@ def _run_config(frontend, prefix, principal, flagseq, storage="tree"):
                                 if http(srv.port, "MKCOL", c3).status in range(200, 300):
                                     http(srv.port, "PUT", urllib.parse.urljoin(c3, "t.ics"), [("Content-Type", "text/calendar")],
                                          gamma.ics_event("third-1@example.com", "in the plain collection"))
+                                # a client configured with the home set's URL instead of a collection's
+                                # uploads an object straight into the home set
+                                http(srv.port, "PUT", urllib.parse.urljoin(cal, "../stray.ics"), [("Content-Type", "text/calendar")],
+                                     gamma.ics_event("stray-1@example.com", "uploaded into the home set"))
+                                for ab in sorted(w["addressbooks"])[:1]:
+                                    http(srv.port, "PUT", urllib.parse.urljoin(ab, "../stray.vcf"), [("Content-Type", "text/vcard")],
+                                         gamma.vcard("Stray Card", uid="stray-card-1"))
                                 for target, text in ((c2, "Second calendar\n\nshared with the team; 100% [draft] #1 = a:b"),
                                                      (cal, "Priv\u00e9 \u2603\n\ncalendar")):
                                     http(srv.port, "PROPPATCH", target, [("Content-Type", "text/xml")],
